@@ -11,7 +11,7 @@
 (***************************************************************************)
 EXTENDS Integers, Sequences, FiniteSets, TLC, Json
 
-CONSTANTS Seeds, APIs, MaxHist
+CONSTANTS Seeds, APIs, MaxHist, PureAPIs
 
 VARIABLES seeded, draws, hist, keys
 vars == <<seeded, draws, hist, keys>>
@@ -24,21 +24,25 @@ ManualSeed(s) ==
   /\ hist' = Append(hist, [a |-> "seed", s |-> s])
   /\ keys' = Append(keys, [seeded |-> FALSE, seed |-> 0, draws |-> <<>>])       \* produces no output
 
+\* APIs that consume no randomness (one_hot_encode on fixed labels, ...): their output is a function of their arguments
+\* alone - comparable across ALL runs, seeded or not (key "pure"), and they leave the stream of later draws untouched
+Pure(api) == api \in PureAPIs
 Draw(api) ==
   /\ Len(hist) < MaxHist /\ api \in APIs
-  /\ draws' = Append(draws, api)
+  /\ draws' = IF Pure(api) THEN draws ELSE Append(draws, api)
   /\ UNCHANGED seeded
   /\ hist' = Append(hist, [a |-> "draw", api |-> api])
-  /\ keys' = Append(keys, IF seeded = <<>> THEN [seeded |-> FALSE, seed |-> 0, draws |-> <<>>]
+  /\ keys' = Append(keys, IF Pure(api) THEN [seeded |-> TRUE, seed |-> 0 - 1, draws |-> <<api>>]
+                          ELSE IF seeded = <<>> THEN [seeded |-> FALSE, seed |-> 0, draws |-> <<>>]
                           ELSE [seeded |-> TRUE, seed |-> seeded[1], draws |-> draws'])
 
 Next == (\E s \in Seeds : ManualSeed(s)) \/ (\E api \in APIs : Draw(api))
 
 \* the key of an output depends only on the calls since the last manual_seed
 KeyForgetsPast ==
-  \A i \in 1..Len(keys) : keys[i].seeded =>
+  \A i \in 1..Len(keys) : (keys[i].seeded /\ keys[i].seed >= 0) =>
      LET j == CHOOSE j \in 1..i : hist[j].a = "seed" /\ \A m \in (j + 1)..i : hist[m].a # "seed"
-     IN keys[i].seed = hist[j].s /\ keys[i].draws = [m \in 1..(i - j) |-> hist[j + m].api]
+     IN keys[i].seed = hist[j].s /\ keys[i].draws = SelectSeq([m \in 1..(i - j) |-> hist[j + m].api], LAMBDA a : a \notin PureAPIs)
 
 Emit == PrintT(ToJson([hist |-> hist, keys |-> keys]))
 =============================================================================
